@@ -15,6 +15,9 @@ import json, os, shutil, subprocess, sys, tempfile, time
 REPO = "/repo"
 VERIF = "/verif"
 ENV = dict(os.environ, CARGO_NET_OFFLINE="true")
+# the repository's own tests are built into a per-worker target dir so that the dependencies are
+# compiled once, not once per scratch worktree
+TEST_ENV = dict(ENV, CARGO_TARGET_DIR=os.environ.get("HOOTMUT_TARGET", "/tmp/hootmut-target") + "-test")
 
 
 def sh(cmd, cwd=None, env=None, timeout=1800):
@@ -47,18 +50,18 @@ def main():
         if confirm and os.path.exists(demo):
             os.makedirs(os.path.join(wt, "tests"), exist_ok=True)
             shutil.copy(demo, os.path.join(wt, "tests", "demo.rs"))
-            rc, out = sh("cargo test --offline --test demo 2>&1 | tail -5", cwd=wt)
+            rc, out = sh("cargo test --offline --test demo 2>&1 | tail -5", cwd=wt, env=TEST_ENV)
             res["demo_passes_without"] = ("test result: ok" in out) and ("FAILED" not in out)
         rc, out = sh(f"git apply {patch}", cwd=wt)
         if rc != 0:
             res["error"] = "patch does not apply: " + out[-300:]
             return res
         if confirm:
-            rc, out = sh("cargo test --offline --test demo 2>&1 | tail -8", cwd=wt) if os.path.exists(demo) else (1, "")
+            rc, out = sh("cargo test --offline --test demo 2>&1 | tail -8", cwd=wt, env=TEST_ENV) if os.path.exists(demo) else (1, "")
             res["demo_fails_with"] = ("FAILED" in out) or ("panicked" in out) or ("error" in out and "test result: ok" not in out)
             if os.path.exists(os.path.join(wt, "tests")):
                 shutil.rmtree(os.path.join(wt, "tests"))
-            rc, out = sh("cargo test --workspace --offline 2>&1 | grep -E '^test result|FAILED|^error' | head", cwd=wt)
+            rc, out = sh("cargo test --workspace --offline 2>&1 | grep -E '^test result|FAILED|^error' | head", cwd=wt, env=TEST_ENV)
             oks = out.count("test result: ok")
             res["suite_passes_with"] = oks >= 2 and "FAILED" not in out and "error" not in out
             res["suite_out"] = out.strip().replace("\n", " | ")[:300]
